@@ -17,7 +17,10 @@ RULE = ("straight-line programs over named processor variables, generated statem
         "injective map onto connectible modes in any order with gaps, written as offset / list / dict int->int (any "
         "bijection) / dict by port names (name->name, name->list, name->int); a malformed stream mutates a legal "
         "plug (wrong size, duplicate key, duplicate value, herald / classical / out-of-range / negative mode, unknown "
-        "port name). After every statement: accepted vs rejected, m, circuit_size, linear_circuit().compute_unitary() "
+        "port name), and a systematic grid aims one plug at every kind of unavailable mode of the left processor (its "
+        "own herald, a herald appended by an earlier plug of a heralded processor, a mode closed by a detector, a mode "
+        "beyond the circuit, a negative mode) through every mapping form (offset, list, dict, port / herald name) for a "
+        "component, a processor and a heralded processor. After every statement: accepted vs rejected, m, circuit_size, linear_circuit().compute_unitary() "
         "(1e-9), heralds (ordered), detectors, in/out port names, mode types, post_select_fn on all states with <= 2 "
         "photons, against the extracted model; plus the statement's own reading decided on the real matrices "
         "(untouched modes fixed; re-expressed post-selection = pulled-back one; legal accepted, illegal rejected). "
@@ -166,7 +169,7 @@ def show_stmt(s):
 
 
 def stmt_key(s):
-    k = {x: s[x] for x in s if x not in ("items", "map", "ps", "legal", "kind")}
+    k = {x: s[x] for x in s if x not in ("items", "map", "ps", "legal", "kind", "cell")}
     if "items" in s and s["items"]:
         k["items"] = [[off, lf.key()] for off, lf in s["items"]]
     if "map" in s:
@@ -323,6 +326,13 @@ def compare(ctx, prog, mo, trace=None):
         if not ok_impl and exc not in EXPECTED_EXC:
             return found + [(i, f"unexpected-exception-{exc}:{op}", f"statement raised {exc} {what0}",
                     "accepted" if ok_model else "a rejection error", exc)]
+        if s.get("legal") is False and ok_impl:
+            return found + [(i, f"illegal-mapping-accepted:{s.get('kind')}",
+                             f"an illegal mapping ({s.get('kind')}) was accepted {what0}"
+                             + ("" if not ok_model else " (and by the model)"), "rejected", "accepted")]
+        if s.get("legal") is False and ok_model:
+            return found + [(i, f"model-accepts-illegal-mapping:{s.get('kind')}",
+                             f"the model accepts an illegal mapping ({s.get('kind')}) {what0}", "rejected", "accepted")]
         if ok_model != ok_impl:
             return found + [(i, f"accept-reject:{op}:{plug_shape(s) if 'map' in s else ''}",
                     f"accepted by one side and rejected by the other {what0}",
@@ -338,9 +348,6 @@ def compare(ctx, prog, mo, trace=None):
                 found.append((i, f"legal-mapping-rejected:{shape}",
                               f"a mapping of the right size, injective, onto connectible modes was refused ({exc}) {what0}",
                               "accepted", f"rejected ({exc})"))
-            if not s["legal"] and ok_impl:
-                return found + [(i, f"illegal-mapping-accepted:{s.get('kind')}", f"an illegal mapping ({s.get('kind')}) was accepted {what0}",
-                        "rejected", "accepted")]
         if not m[1]:
             if rep is not None:
                 return found + [(i, "variable-set", "variable defined only in the implementation", None, v)]
@@ -781,6 +788,82 @@ def mutate(rng, g, s):
     s["kind"] = kind
     return s, kind
 
+# ------------------------------------------------------------------ every unavailable mode x every mapping form
+CAUSES = ["herald-own", "herald-appended", "detector", "beyond", "negative"]
+FORMS = ["int", "list", "dict", "name"]
+RIGHTS = ["comp", "proc", "heralded-proc"]
+
+
+def gen_unavailable(rng, cause, form, right):
+    """A left processor owning every kind of unavailable mode (its own heralds, heralds appended by an earlier plug of
+    a heralded processor, a mode closed by a detector), then ONE illegal plug aiming at a mode unavailable for `cause`
+    through mapping form `form`, of a plain component / a processor / a heralded processor. None if impossible."""
+    from perceval.utils import ModeType
+    g = Gen(rng)
+    m = rng.rint(4, 6)
+    if rng.chance(1, 2):
+        g.emit({"op": "new", "v": 0, "m": m, "items": rand_items(rng, m, 3)})
+    else:
+        g.emit({"op": "new", "v": 0, "m": m})
+    pos = rng.shuffle(range(m))
+    own, det = pos[0], pos[1]
+    own_name, det_name, app_name = g.fresh_name(), g.fresh_name(), g.fresh_name()
+    g.emit({"op": "herald", "v": 0, "mode": own, "expected": rng.below(2), "name": own_name})
+    # a heralded processor plugged legally: its herald becomes a new mode after the existing ones
+    g.emit({"op": "new", "v": 1, "m": 2, "items": rand_items(rng, 2, 2)})
+    g.emit({"op": "herald", "v": 1, "mode": rng.below(2), "expected": rng.below(2), "name": app_name})
+    mp, _ = g.legal_mapping(0, 1, [i for i in range(2) if i not in g.env[1].heralds], 1, forms=["int", "list", "dict"])
+    g.emit({"op": "proc", "v": 0, "map": mp, "w": 1, "keep": 1, "legal": True})
+    if g.dead:
+        return None
+    appended = g.env[0].circuit_size - 1
+    # a mode closed by a detector, with a port on it so that it can be named
+    g.emit({"op": "port", "v": 0, "mode": det, "name": det_name, "enc": 0, "size": 1, "loc": rng.choice([1, 2])})
+    g.emit({"op": "det", "v": 0, "mode": det, "d": rng.rint(1, 2)})
+    if g.dead:
+        return None
+    size = g.env[0].circuit_size
+    bad, bad_name = {"herald-own": (own, own_name), "herald-appended": (appended, app_name), "detector": (det, det_name),
+                     "beyond": (size + rng.below(2), None), "negative": (-1 - rng.below(2), None)}[cause]
+    if form == "name" and bad_name is None:
+        return None
+    # the right-hand side
+    if right == "comp":
+        lf = gen.rand_leaf(rng, 2, kinds=("BS", "PS", "U"))
+        n, rmodes = lf.k, list(range(lf.k))
+        stmt = {"op": "comp", "v": 0, "k": lf.k, "items": [(0, lf)], "keep": 1, "wrap": False}
+    else:
+        mr = rng.rint(1, 2) + (1 if right == "heralded-proc" else 0)
+        g.emit({"op": "new", "v": 2, "m": mr, "items": rand_items(rng, mr, 3)})
+        if right == "heralded-proc":
+            g.emit({"op": "herald", "v": 2, "mode": rng.below(mr), "expected": rng.below(2), "name": 0})
+        R = g.env[2]
+        n, rmodes = R.m, [i for i in range(R.circuit_size) if i not in R.heralds]
+        stmt = {"op": "proc", "v": 0, "w": 2, "keep": 1}
+    ph = [x for x in g.photonic(0) if x != bad]
+    if form == "int":
+        # an offset whose span covers the unavailable mode
+        cands = [o for o in range(bad - n + 1, bad + 1) if (cause == "negative" or o >= 0)]
+        stmt["map"] = {"kind": "int", "b": rng.choice(cands)}
+    else:
+        if len(ph) < n - 1:
+            return None
+        chosen = rng.shuffle([bad] + rng.shuffle(ph)[:n - 1])
+        if form == "list":
+            stmt["map"] = {"kind": "list", "l": chosen}
+        elif form == "dict":
+            stmt["map"] = {"kind": "dict", "items": rng.shuffle(list(zip(chosen, rng.shuffle(rmodes))))}
+        else:
+            tg = rng.shuffle(rmodes)
+            items = [(("n", bad_name), ("l", [tg[0]]) if rng.chance(1, 2) else tg[0])]
+            items += list(zip([c for c in chosen if c != bad], tg[1:]))
+            stmt["map"] = {"kind": "dict", "items": rng.shuffle(items)}
+    stmt["legal"] = False
+    stmt["kind"] = f"unavailable-mode:{cause}:{form}"
+    stmt["cell"] = right
+    g.emit(stmt)
+    return g
+
 
 def gen_program(rng, malformed):
     g = Gen(rng)
@@ -884,7 +967,10 @@ def is_weird_plug(s):
 def shrink(ctx, prog, sig):
     """Delete statements (never the last one) while the same failure signature persists."""
     cur = list(prog)
-    if sig.startswith(("legal-", "illegal-")):
+    guard = None
+    if sig.startswith("illegal-mapping-accepted:unavailable-mode"):
+        guard = still_unavailable   # deletions are kept only while the last mapping still aims at an unavailable mode
+    elif sig.startswith(("legal-", "illegal-")):
         return cur          # the legality label was computed on the generated program: deletions could falsify it
     changed = True
     budget = 60
@@ -896,13 +982,48 @@ def shrink(ctx, prog, sig):
             if budget <= 0:
                 break
             try:
-                rs = check_program(ctx, cand)
+                rs = check_program(ctx, cand) if guard is None or guard(cand) else []
             except Exception:
                 rs = []
             if any(r[1] == sig and r[0] == len(cand) - 1 for r in rs):
                 cur = cand
                 changed = True
     return cur
+
+
+def still_unavailable(prog):
+    """Independent legality oracle for the last plug of a program: does its mapping name a mode of the left processor
+    that is negative, beyond the circuit or not photonic (white-box read of _mode_type, not of is_mode_connectible)?"""
+    from perceval.utils import ModeType
+    env = {}
+    for st in prog[:-1]:
+        if st["op"] != "new" and st["v"] not in env:
+            return False
+        if st["op"] == "proc" and st["w"] not in env:
+            return False
+        ok, _ = impl_step(env, st)
+        if not ok:
+            return False
+    s = prog[-1]
+    if s["op"] not in ("comp", "proc") or s["v"] not in env or (s["op"] == "proc" and s["w"] not in env):
+        return False
+    E = env[s["v"]].experiment
+    n = s["k"] if s["op"] == "comp" else env[s["w"]].m
+    mp = s["map"]
+    if mp["kind"] == "int":
+        keys = list(range(mp["b"], mp["b"] + n))
+    elif mp["kind"] == "list":
+        keys = list(mp["l"])
+    else:
+        keys = []
+        for k, _ in mp["items"]:
+            if isinstance(k, tuple):
+                for port, r in E._out_ports.items():
+                    if port.name == f"p{k[1]}":
+                        keys += list(r)
+            else:
+                keys.append(k)
+    return any(k < 0 or k >= E.circuit_size or E._mode_type[k] != ModeType.PHOTONIC for k in keys)
 
 
 def check_program(ctx, prog, trace=None):
@@ -930,6 +1051,16 @@ def run(ctx):
     for i in range(n_bad):
         g = gen_program(rng.fork(("m", i)), True)
         progs.append((g.prog, g.trace, "malformed", False))
+    n_grid = 0
+    for rep_i in range(ctx.n(1, 6)):
+        for cause in CAUSES:
+            for form in FORMS:
+                for right in RIGHTS:
+                    g = gen_unavailable(rng.fork(("u", rep_i, cause, form, right)), cause, form, right)
+                    if g is not None and g.prog and g.prog[-1].get("legal") is False:
+                        progs.append((g.prog, g.trace, "unavailable-grid", False))
+                        ctx.count(f"unavailable.{cause}.{form}.{right}")
+                        n_grid += 1
     reqs = [(1000, model_requests(p)) for p, _, _, _ in progs]
     outs = ctx.model.run(reqs)
     shrunk = set()
@@ -959,6 +1090,7 @@ def run(ctx):
     ctx.streams["valid programs"] = n_valid
     ctx.streams["malformed plugs"] = n_bad
     ctx.streams["corpus"] = len(corpus())
+    ctx.streams["unavailable modes (cause x mapping form x right-hand side)"] = n_grid
     # generate_permutation alone: all injective key sets of small size, against the real static method
     exhaustive_genperm(ctx)
     sample = reqs[len(corpus()):len(corpus()) + (2 if ctx.quick() else 20)]
